@@ -32,6 +32,11 @@
  * entry and queues the new one; never blocks (C15); caller's reference released once (C03))
  * ===================================================================== */
 #define PS_M (aio->a_msg)
+#ifdef PUB_EXP
+#define PUB_EXP1 (PS_M->m_refcnt.v >= 2)
+#else
+#define PUB_EXP1 1
+#endif
 #define PS_FULL_OLD(p) (OLD(PQ_LEN(p)) >= (p)->sendq.lmq_cap)
 #define PS_DROPS(i, p) (g_np > (i) && OLD((p)->busy) && PS_FULL_OLD(p))
 #define PS_PIPE_PRE(i, p) (PUB_LMQ_PRE(PQ(p)) && PUB_REF_OK(PQ_HEAD(p)))
@@ -78,7 +83,7 @@ __CPROVER_frees(PQ_HEAD(p), PQ_HEAD(p)->m_body.ch_buf)
 static void pub0_sock_send(void *arg, nni_aio *aio)
 __CPROVER_requires(arg == g_s && VP_NO_LOCK_HELD && g_np <= PUB_NPMAX)
 __CPROVER_requires(__CPROVER_is_fresh(aio, sizeof(nni_aio)))
-__CPROVER_requires(__CPROVER_is_fresh(PS_M, sizeof(struct nng_msg)) && PS_M->m_header_len <= MSG_HDRCAP && PUB_REF_OK(PS_M) && CH_FULL_PRE(&PS_M->m_body) && CH_GHOST_PRE(&PS_M->m_body))
+__CPROVER_requires(__CPROVER_is_fresh(PS_M, sizeof(struct nng_msg)) && PS_M->m_header_len <= MSG_HDRCAP && PUB_REF_OK(PS_M) && PUB_EXP1 && CH_FULL_PRE(&PS_M->m_body) && CH_GHOST_PRE(&PS_M->m_body))
 PS_IF0(__CPROVER_requires(PS_PIPE_PRE(0, g_pp0))) PS_IF1(__CPROVER_requires(PS_PIPE_PRE(1, g_pp1))) PS_IF2(__CPROVER_requires(PS_PIPE_PRE(2, g_pp2)))
 __CPROVER_assigns(aio->a_msg, PS_M->m_refcnt, PS_M->m_body, VP_PROTO_GHOST_LIST, VP_SYNC_GHOSTS, g_free_calls, g_sent0, g_sent1, g_sent2, g_sentm0, g_sentm1, g_sentm2)
 PS_IF0(PS_PIPE_ASSIGNS(0, g_pp0)) PS_IF1(PS_PIPE_ASSIGNS(1, g_pp1)) PS_IF2(PS_PIPE_ASSIGNS(2, g_pp2))
